@@ -82,6 +82,10 @@ type vWorld struct {
 	faultOnly string
 	// faultKind: the error kind used when faultKinds == 1 (0 = server error)
 	faultKind int
+	// setLeavesCacheAfter: if > 0, the set informer cache loses its objects after that
+	// many lookups (the set was deleted and re-created while the reconcile was in flight)
+	setLeavesCacheAfter int
+	setLookups          int
 }
 
 type vCrash struct{}
@@ -648,6 +652,10 @@ func (x *vSetIndexer) List() []interface{} {
 	return out
 }
 func (x *vSetIndexer) GetByKey(key string) (interface{}, bool, error) {
+	x.w.setLookups++
+	if x.w.setLeavesCacheAfter > 0 && x.w.setLookups > x.w.setLeavesCacheAfter {
+		return nil, false, nil
+	}
 	for _, s := range x.w.sets {
 		if s.Namespace+"/"+s.Name == key {
 			return s, true, nil
